@@ -126,7 +126,13 @@ func profileConfig(p string, seed uint64) RunConfig {
 		c.Steps = 12 + r.IntN(40)
 		c.Oracles = []string{"C17"}
 		c.NoPeek = true
-		if r.IntN(6) == 0 {
+		if r.IntN(3) == 0 {
+			// phase A: this configuration in lock-step; phase B: the same action list
+			// free-running (free.go)
+			c.FreeRun = true
+			c.KernLatency = 0
+			c.AutoAnswer = r.IntN(3) > 0
+		} else if r.IntN(6) == 0 {
 			// a slow data plane and short queues at shutdown time: ticks pile up
 			c.KernLatency = pick(r, 300, 700, 1200)
 			c.Steps = 10 + r.IntN(15)
